@@ -38,7 +38,10 @@ MANIFEST = {
             "GPOS 2, no flags) occur: the lookup engine is C06/C07. The property does not say which language system "
             "a tag selects: any is accepted, but it must be one (same answer on every call, in every process). "
             "minimum+override kern subtables (bounded from below / replaced) and switching off the synthetic liga feature: either reading is accepted, but one reading for the whole run. "
-            "Fixed-pitch files without GSUB are not generated.",
+            "A file without GSUB whose non-zero widths are all equal may or may not get ligatures (one answer per file); two "
+            "different non-zero widths anywhere (glyph 0 and the last glyph included) make it proportional. A cmap subtable in "
+            "format 2/8/10/13/14 or breaking a rule of its format counts as undecodable: the best DECODABLE subtable is used. "
+            "Re-read fonts are also stored with GSUB/GPOS tables re-laid by the harness (permuted, shared, gapped storage).",
     "technique": "TLA+ model checking (TLC) of LayoutPipe.tla + trace validation of recorded FindLookups / "
                  "NewLayouter / Layout calls against LayoutPipeTrace.tla",
 }
@@ -347,9 +350,13 @@ def run(ctx):
         "be the same for every call with that tag (in-process, new layouters, fresh processes)",
         "minimum+override kern subtables: the OpenType text admits 'bounded from below' and 'replaced'; either is accepted "
         "but one reading must explain every pair of every file of a run; the synthetic liga feature of a font without GSUB may "
-        "be required or optional; fixed-pitch files without GSUB are outside the property and not generated",
-        "full-Unicode cmap subtables (3,10)/(0,4) carry one mapping, BMP subtables (3,1)/(0,3) another: only "
-        "'full Unicode before BMP' is demanded of GetBest",
+        "be required or optional; a file without GSUB whose non-zero widths are all equal (fixed pitch by the code, and by "
+        "the documented rule if no width is 0) may or may not get ligatures, one answer per file",
+        "usable full-Unicode cmap subtables (3,10)/(0,4) carry one mapping, usable BMP subtables (3,1)/(0,3) another: only "
+        "'full Unicode before BMP' is demanded; a subtable of format 2/8/10/13/14 (not implemented) or violating a rule of "
+        "format 0/4/6/12 is undecodable and must not hide a usable subtable of lower rank",
+        "layx.Relayout (harness) re-stores GSUB/GPOS with the same meaning; what is read from it is judged by the case's "
+        "description of the tables, not by the library's own round trip",
         "advance widths, kerning values and glyph ids are small integers (no int16 overflow)",
     ]
     binp = ctx.build("c15")
